@@ -425,6 +425,44 @@ theorem shortcut_launch (env : Env) (s : Server) (w : ResponseWriter) (rq : HTTP
           · simp [hrs, hu, hsf] at h; rw [← h]; simp [hsf]
           · simp [hrs, hu, hsf] at h; rw [← h]; simp [hsf]
 
+/-- C19: ending a session / removing a user deletes exactly the named key from the store, answers 204 only after the store accepted
+    the deletion, and one 500 otherwise — nothing else is written, and nothing else in the store is touched by these handlers -/
+theorem deleteSession_cases (env : Env) (s : Server) (w : ResponseWriter) (rq : HTTPRequest) (tr : List Event)
+    (h : HandleDeleteSession env s w (some rq) = .ok tr) :
+    let key := "/sessions/" ++ env.pathValue rq "id"
+    (env.storeDelete key = .ok none ∧ tr = [evStoreDelete key, evNoContent]) ∨
+    (∃ e, env.storeDelete key = .ok (some e) ∧ tr = [evStoreDelete key, evServerError]) := by
+  intro key
+  unfold HandleDeleteSession at h
+  simp only [deref_some, Outcome.ok_bind', Outcome.pure_eq_ok] at h
+  cases hd : env.storeDelete key with
+  | err x => simp [key, hd] at h
+  | panic x => simp [key, hd] at h
+  | ok e =>
+    simp only [key] at hd
+    simp only [hd, Outcome.ok_bind'] at h
+    cases e with
+    | none => simp at h; exact Or.inl ⟨rfl, by rw [← h]; rfl⟩
+    | some x => simp at h; exact Or.inr ⟨x, rfl, by rw [← h]; rfl⟩
+
+theorem deleteUser_cases (env : Env) (s : Server) (w : ResponseWriter) (rq : HTTPRequest) (tr : List Event)
+    (h : HandleDeleteUser env s w (some rq) = .ok tr) :
+    let key := "/users/" ++ env.pathValue rq "id"
+    (env.storeDelete key = .ok none ∧ tr = [evStoreDelete key, evNoContent]) ∨
+    (∃ e, env.storeDelete key = .ok (some e) ∧ tr = [evStoreDelete key, evServerError]) := by
+  intro key
+  unfold HandleDeleteUser at h
+  simp only [deref_some, Outcome.ok_bind', Outcome.pure_eq_ok] at h
+  cases hd : env.storeDelete key with
+  | err x => simp [key, hd] at h
+  | panic x => simp [key, hd] at h
+  | ok e =>
+    simp only [key] at hd
+    simp only [hd, Outcome.ok_bind'] at h
+    cases e with
+    | none => simp at h; exact Or.inl ⟨rfl, by rw [← h]; rfl⟩
+    | some x => simp at h; exact Or.inr ⟨x, rfl, by rw [← h]; rfl⟩
+
 theorem TransI_registry_no_failures : TransI.transFailures = [] := by decide
 
 end SamlVerif.TransRegistry
